@@ -277,7 +277,7 @@ func Harness_C15_Scalars() {
 	c15WitnessOutcome(res)
 }
 
-// Harness_C15_Person (thorough): as Scalars for channel type 1, where canonicalisation also
+// Harness_C15_Person: as Scalars for channel type 1, where canonicalisation also
 // defaults the directory generation.
 func Harness_C15_Person() {
 	existing := c15Row("existing", 1)
@@ -290,7 +290,7 @@ func Harness_C15_Person() {
 	c15WitnessOutcome(res)
 }
 
-// Harness_C15_Legacy (thorough): the row handed in as "existing" is NOT canonical (route
+// Harness_C15_Legacy: the row handed in as "existing" is NOT canonical (route
 // generation 0, as a row written before the column existed; person channel without directory
 // generation). All obligations are relative to normalize(existing), which is what the function
 // documents.
